@@ -8,6 +8,7 @@ import (
 	schema "github.com/jsightapi/jsight-schema-core"
 	jbytes "github.com/jsightapi/jsight-schema-core/bytes"
 	jnum "github.com/jsightapi/jsight-schema-core/json"
+	jdoc "github.com/jsightapi/jsight-schema-core/formats/json"
 	"github.com/jsightapi/jsight-schema-core/notations/jschema"
 
 	"verifmc/core"
@@ -278,6 +279,59 @@ func c20Pairs(w *core.W) {
 var c20Boundary = []string{"2147483647", "2147483648", "4294967295", "4294967296", "9007199254740992", "9007199254740993", "9223372036854775807", "9223372036854775808", "9223372036854775809",
 	"18446744073709551615", "18446744073709551616", "99999999999999999999", "123456789012345678901234567890", "0", "1"}
 
+// c20JSONLiteral: a scalar the JSON document scanner accepts (exponent forms included, which
+// the schema scanner refuses) is classified by json.Guess - the classifier the checker uses
+// for literal values - and by GuessSchemaType in the same way.
+func c20JSONLiteral(w *core.W, in []byte, entry string) {
+	w.S.Evaluations++
+	w.S.Traces++
+	w.S.Transitions += int64(len(in))
+	var derr error
+	if rec, _ := guard(func() { derr = jdoc.New("lit", in).Check() }); rec != nil || derr != nil {
+		w.Class("not-json")
+		return
+	}
+	w.S.Nontrivial++
+	var jt jnum.Type
+	if rec, site := guard(func() { jt = jnum.Guess(jbytes.NewBytes(in)).JsonType() }); rec != nil {
+		w.Violate(bv("classifier-total", entry, in, fmt.Sprintf("json.Guess(...).JsonType() panicked on a literal the JSON scanner accepted: %v", rec), map[string]string{"site": site, "shape": c20Shape(in)}))
+		return
+	}
+	want := jt.String()
+	w.Class("json-literal:" + want)
+	for i := 0; i < 8; i++ {
+		var got schema.SchemaType
+		var err error
+		if rec, site := guard(func() { got, err = schema.GuessSchemaType(in) }); rec != nil {
+			w.Violate(bv("no-panic", entry, in, fmt.Sprintf("GuessSchemaType panicked: %v", rec), map[string]string{"site": site}))
+			return
+		}
+		if err != nil || string(got) != want {
+			w.Violate(bv("guess-equals-scanner", entry, in, fmt.Sprintf("GuessSchemaType=%q err=%v on call %d, json.Guess classifies it as %q", got, err, i+1, want), map[string]string{"want": want, "shape": c20Shape(in)}))
+			return
+		}
+	}
+}
+
+// c20Shape: which parts a number literal has.
+func c20Shape(in []byte) string {
+	s := string(in)
+	shape := "number"
+	if strings.TrimLeft(strings.TrimLeft(s, "-"), "0") != strings.TrimLeft(s, "-") && !strings.ContainsAny(s, ".") && strings.ContainsAny(s, "eE") {
+		shape = "zero-with-exponent"
+	}
+	if strings.Contains(s, ".") {
+		shape += "+fraction"
+	}
+	if strings.Contains(s, "e") {
+		shape += "+e"
+	}
+	if strings.Contains(s, "E") {
+		shape += "+E"
+	}
+	return shape
+}
+
 func c20Run(w *core.W) {
 	if w.Shard == 0 {
 		c20Vocabulary(w)
@@ -291,6 +345,21 @@ func c20Run(w *core.W) {
 					c20Literal(w, []byte(sign+lit+frac), "boundary")
 				}
 			}
+		}
+	}
+	if w.Shard == 1%w.Of {
+		// JSON number literals with every combination of sign, integer part, fraction and exponent
+		for _, sign := range []string{"", "-"} {
+			for _, ip := range []string{"0", "2", "10", "25", "12", "100"} {
+				for _, frac := range []string{"", ".0", ".5", ".50", ".34", ".00", ".05"} {
+					for _, ex := range []string{"", "e0", "E0", "e1", "E1", "e+1", "E+1", "e-1", "E-1", "e2", "E2", "e-2", "E-2", "e10", "E-10", "e01"} {
+						c20JSONLiteral(w, []byte(sign+ip+frac+ex), "json-literals")
+					}
+				}
+			}
+		}
+		for _, lit := range []string{`"a"`, `"a.b"`, `"1e5"`, `true`, `false`, `null`, `"\u0041"`, `""`} {
+			c20JSONLiteral(w, []byte(lit), "json-literals")
 		}
 	}
 	e := &seq.Enum{Tokens: c20Tokens, N: c20N(w.Tier), W: w}
